@@ -97,7 +97,7 @@ func checkC02(c *gramCase, b *gram.Built, r *vstat.Run) outcome {
 
 func TestC02(t *testing.T) {
 	runProp(t, "C02", c02Rule, func(t *rapid.T, r *vstat.Run) {
-		o := gram.GenOpts{MaxProds: 5, MaxDepth: 3, TrapPercent: 70, PosStyles: false, Profiles: true, Parseables: true, NameElided: rapid.IntRange(0, 6).Draw(t, "named") == 0}
+		o := gram.GenOpts{MaxProds: 5, MaxDepth: 3, TrapPercent: 70, PosStyles: false, Profiles: true, Parseables: true, Statics: true, NameElided: rapid.IntRange(0, 6).Draw(t, "named") == 0}
 		g := gram.GenGrammar(t, o)
 		// bias the lookahead upwards: an attempt must be abandonable for a leak to show
 		g.Lookahead = rapid.SampledFrom([]int{1, 2, 3, 5, 5, 99999, 99999, -1}).Draw(t, "k2")
@@ -661,7 +661,7 @@ func checkC13(c *gramCase, ps *c13Parsers, r *vstat.Run) outcome {
 
 func TestC13(t *testing.T) {
 	runProp(t, "C13", c13Rule, func(t *rapid.T, r *vstat.Run) {
-		o := gram.GenOpts{MaxProds: 4, MaxDepth: 4, TrapPercent: 30, NoLookNeg: true, PosStyles: true, Profiles: true, Parseables: true, NameElided: rapid.IntRange(0, 4).Draw(t, "named") == 0}
+		o := gram.GenOpts{MaxProds: 4, MaxDepth: 4, TrapPercent: 30, NoLookNeg: true, PosStyles: true, Profiles: true, Parseables: true, Statics: true, NameElided: rapid.IntRange(0, 4).Draw(t, "named") == 0}
 		g := gram.GenGrammar(t, o)
 		ps, msg := buildLadder(g)
 		if msg != "" {
